@@ -18,6 +18,7 @@ import (
 	"github.com/ipfs/ipfs-cluster/config"
 	"github.com/ipfs/ipfs-cluster/consensus/crdt"
 	"github.com/ipfs/ipfs-cluster/consensus/raft"
+	"github.com/ipfs/ipfs-cluster/datastore/badger"
 	"github.com/ipfs/ipfs-cluster/datastore/inmem"
 	"github.com/ipfs/ipfs-cluster/datastore/leveldb"
 	"github.com/ipfs/ipfs-cluster/state"
@@ -302,6 +303,7 @@ type pinsCase struct {
 	gen    []mpin
 	prior  []mpin
 	expc   bool // also run the crdt chain
+	badger bool // … with the badger-backed crdt state manager instead of the leveldb one
 	start  bool // also start a raft peer on the snapshot
 }
 
@@ -310,6 +312,9 @@ func (c pinsCase) input() string {
 	d := c.damage
 	if c.expc {
 		d += 100
+	}
+	if c.badger {
+		d += 100 // 200: crdt chain over badger
 	}
 	if c.start {
 		d += 1000
@@ -329,6 +334,10 @@ func parsePinsCase(f []string) (pinsCase, bool) {
 	if d >= 1000 {
 		c.start = true
 		d -= 1000
+	}
+	if d >= 200 {
+		c.expc, c.badger = true, true
+		d -= 200
 	}
 	if d >= 100 {
 		c.expc = true
@@ -373,6 +382,20 @@ func raftManager(dir string) (cmdutils.StateManager, *raft.Config, error) {
 	return m, rc, err
 }
 
+// crdt state manager over a badger datastore in <dir>/badger
+func crdtManagerBadger(dir string) (cmdutils.StateManager, error) {
+	rc := raftCfg(filepath.Join(dir, "raft"), 3)
+	cc := &crdt.Config{}
+	cc.Default()
+	bc := &badger.Config{}
+	bc.Default()
+	bc.BaseDir = dir
+	cl := &ipfscluster.Config{}
+	cl.BaseDir = dir
+	cfgs := &cmdutils.Configs{Raft: rc, Crdt: cc, Cluster: cl, Badger: bc}
+	return cmdutils.NewStateManager("crdt", "badger", &config.Identity{ID: peerTab[0]}, cfgs)
+}
+
 func crdtManager(dir string) (cmdutils.StateManager, error) {
 	rc := raftCfg(filepath.Join(dir, "raft"), 3)
 	cc := &crdt.Config{}
@@ -406,6 +429,21 @@ func damageStream(kind int, b []byte) []byte {
 		return bytes.ReplaceAll(b, []byte("\n"), nil)
 	case 7: // CRLF line ends
 		return bytes.ReplaceAll(b, []byte("\n"), []byte("\r\n"))
+	case 8: // two exports of the same state, one after the other
+		return append(append([]byte{}, b...), b...)
+	case 9: // a record without "cid" at the end
+		return append(append([]byte{}, b...), []byte("{\"name\":\"simple\",\"type\":2,\"max_depth\":-1}\n")...)
+	case 10: // complete documents, then a line that is not JSON
+		return append(append([]byte{}, b...), []byte("garbage\n")...)
+	case 11: // the first document once more at the end (a duplicate cid, same content)
+		if i := bytes.IndexByte(b, '\n'); i >= 0 {
+			return append(append([]byte{}, b...), b[:i+1]...)
+		}
+	case 12: // a CHANGED copy (another name) of the first document in front: the later, original document must win
+		if i := bytes.IndexByte(b, '\n'); i >= 0 {
+			first := bytes.Replace(b[:i+1], []byte("\"name\":\""), []byte("\"name\":\"changed "), 1)
+			return append(append([]byte{}, first...), b...)
+		}
 	}
 	return b
 }
@@ -551,7 +589,11 @@ func runPins(c pinsCase) string {
 	// (a') … -> crdt state manager import over `prior` -> crdt export -> raft import into an empty folder
 	if c.expc {
 		func() {
-			mgrC, err := crdtManager(filepath.Join(dir, "C"))
+			mk := crdtManager
+			if c.badger {
+				mk = crdtManagerBadger
+			}
+			mgrC, err := mk(filepath.Join(dir, "C"))
 			if err != nil {
 				res["expc"] = "err;?"
 				return
@@ -773,11 +815,12 @@ func genPinsCase(r *common.Rng, k, total int, tier string) pinsCase {
 		}
 	}
 	if r.Chance(1, 10) {
-		c.damage = r.Range(1, 3)
+		c.damage = []int{1, 2, 3, 10}[r.Intn(4)]
 	} else if r.Chance(1, 4) {
-		c.damage = r.Range(4, 7)
+		c.damage = []int{4, 5, 6, 7, 8, 9, 11, 12}[r.Intn(8)]
 	}
 	c.expc = k%4 == 1
+	c.badger = k%8 == 5
 	startEvery := 97
 	if tier == "thorough" {
 		startEvery = 61
